@@ -22,22 +22,40 @@ const (
 
 var epNames = [...]string{"Execute", "ExecuteBytes", "ExecuteWriter", "ExecuteWriterUnbuffered", "ExecuteBlocks"}
 
-func progDisk(sp *ProgSpec) *DiskSpec {
+func progDisk(sp *ProgSpec) []*DiskSpec {
 	d := &DiskSpec{Files: map[string][]FileVer{}}
 	for _, k := range sortedKeys(sp.Files) {
 		d.Files[k] = []FileVer{{Content: sp.Files[k]}}
 	}
-	return d
+	if !sp.TwoLoaders {
+		return []*DiskSpec{d}
+	}
+	// a stack of two loaders: inc1.tpl exists only behind the second one, which also holds
+	// a copy of inc0.tpl with other content - never visible, the first loader that has a
+	// name wins
+	d2 := &DiskSpec{Files: map[string][]FileVer{}}
+	if c, ok := sp.Files["inc1.tpl"]; ok {
+		delete(d.Files, "inc1.tpl")
+		d2.Files["inc1.tpl"] = []FileVer{{Content: c}}
+	}
+	d2.Files["inc0.tpl"] = []FileVer{{Content: "(SHADOWED-i0:{{ s1 }})"}}
+	d2.Files["base.tpl"] = []FileVer{{Content: "SHADOWED-BASE[{% block b1 %}{% endblock %}{% block b2 %}{% endblock %}]"}}
+	return []*DiskSpec{d, d2}
 }
 
 // NewProgSet creates a set over disk 0 of the world with the program's options.
 func (w *World) NewProgSet(sp *ProgSpec, name, loaderKind string) *pongo2.TemplateSet {
 	set := pongo2.NewSet(name, w.MakeLoader(0, LoaderSpec{Kind: loaderKind, Disk: 0}))
+	if sp.TwoLoaders {
+		set.AddLoader(w.MakeLoader(1, LoaderSpec{Kind: loaderKind, Disk: 1}))
+	}
 	if !sp.OptsOnTemplate {
 		set.Options.TrimBlocks = sp.TrimBlocks
 		set.Options.LStripBlocks = sp.LStripBlocks
 	}
-	set.Globals["glob"] = "G<" + name + ">"
+	if !sp.NoGlobals {
+		set.Globals["glob"] = "G<" + name + ">"
+	}
 	return set
 }
 
@@ -97,6 +115,11 @@ func (w *World) Exec(tpl *pongo2.Template, ep int, ctx pongo2.Context, blocks []
 			res.Panic = fmt.Sprintf("%v\n%s", p, pongoFrames(shortStack()))
 		}
 		res.Cbs = l.cbCount
+		// the caller's own function `mut` edits the caller's map while it is being rendered;
+		// the caller puts it back afterwards (read first: a map shared by tasks is never written)
+		if v, ok := ctx["mutk"]; ok && v != "M0" {
+			ctx["mutk"] = "M0"
+		}
 		// byte slices handed out by earlier ExecuteBytes calls belong to the caller
 		for i, rb := range l.retained {
 			if string(rb.b) != rb.copy {
@@ -123,10 +146,10 @@ func (w *World) Exec(tpl *pongo2.Template, ep int, ctx pongo2.Context, blocks []
 		}
 	case EpExecuteWriter:
 		sw = w.NewWriter()
-		res.err = tpl.ExecuteWriter(ctx, sw)
+		res.err = tpl.ExecuteWriter(ctx, w.CallerWriter(sw))
 	case EpExecuteWriterUnbuffered:
 		sw = w.NewWriter()
-		res.err = tpl.ExecuteWriterUnbuffered(ctx, sw)
+		res.err = tpl.ExecuteWriterUnbuffered(ctx, w.CallerWriter(sw))
 	case EpExecuteBlocks:
 		m, err := tpl.ExecuteBlocks(ctx, blocks)
 		res.err = err
